@@ -200,6 +200,8 @@ pub struct Interp<F: Family> {
     pub twin: Option<(usize, usize)>,
     /// the operation one twin has received and the other has not yet: (world, key, identifiers issued)
     pub twin_pending: Option<(usize, String, Option<String>)>,
+    /// `(source, copy, how)`: `copy` was just made from `source` and neither was written since
+    pub fresh_copy: Option<(usize, usize, &'static str)>,
 }
 
 pub fn render_dump<F: Family>(w: &mut F::W) -> String {
@@ -340,6 +342,7 @@ impl<F: Family + 'static> Interp<F> {
             ops_run: 0,
             twin: None,
             twin_pending: None,
+            fresh_copy: None,
             op_hist: HashMap::new(),
             stats: HashMap::new(),
             alloc_base: (0, 0, 0, 0),
@@ -481,6 +484,28 @@ impl<F: Family + 'static> Interp<F> {
                 }
             }
             let writes_w = !matches!(op, Op::Eq(_) | Op::Len | Op::Probe(_));
+            // C10 / C16 / C06: a copy that nobody has touched yet compares equal to its source
+            let made: Option<(usize, &'static str)> = match op {
+                Op::Clone { src, .. } if res_s.map_or(false, |r| r.starts_with("ok")) => Some((*src, "clone")),
+                // (not `clone_from`: C10 asks a clone_from result to hold the source's entities, not to
+                // compare equal — tables the destination had before stay, empty, and `==` sees them)
+                _ => new_twin.map(|(s0, _)| (s0, "a serde round trip")),
+            };
+            if let Some((s0, how)) = made {
+                self.fresh_copy = if s0 != w { Some((s0, w, how)) } else { None };
+            } else if let Some((a, b, how)) = self.fresh_copy {
+                if let Op::Eq(o) = op {
+                    if (w == a && *o == b) || (w == b && *o == a) {
+                        if let Some(r) = res_s {
+                            if r.contains("eq=0") {
+                                ledger_error(format!("oracle=eq world {} was made from world {} by {} and neither was written since, yet they do not compare equal", b, a, how));
+                            }
+                        }
+                    }
+                } else if (w == a || w == b) && writes_w {
+                    self.fresh_copy = None;
+                }
+            }
             if new_twin.is_some() {
                 self.twin = new_twin;
                 self.twin_pending = None;
@@ -812,6 +837,31 @@ pub fn run_case<F: Family>(it: &mut Interp<F>, name: &str, seed: u64, cfg: &GenC
                 it.bump("twin-probe");
                 continue;
             }
+        }
+        // "drained" (C10/C06/C16): a world that lost all its entities and was then shrunk has no table
+        // left but still carries slot generations and a free queue; copy it, compare, use both
+        if multi && g.rng.below(100) < 2 {
+            it.exec(w, &Op::Clear);
+            it.exec(w, &Op::Shrink);
+            let o = (w + 1 + g.rng.below(2) as usize) % 3;
+            let e = g.epoch();
+            match g.rng.below(if serde_on { 3 } else { 2 }) {
+                0 => { it.exec(o, &Op::Clone { src: w, e }); }
+                1 => { if it.worlds[o].is_some() { it.exec(o, &Op::CloneFrom { src: w, e }); } else { it.exec(o, &Op::Clone { src: w, e }); } }
+                _ => { it.exec(o, &Op::Serde { src: w, rows: g.rng.below(2) == 0, e, front: "tokens".into(), mutation: vec![] }); }
+            }
+            it.exec(w, &Op::Eq(o));
+            let shape = { let mut sh = pick_shape(&mut g); if sh.is_empty() { sh = work.iter().find(|x| !x.is_empty()).map(|x| x.to_vec()).unwrap_or(sh); } sh };
+            let n = if shape.is_empty() { 0 } else { 1 + g.rng.below(4) as usize };
+            let rows: Vec<Vec<u64>> = (0..n).map(|_| shape.iter().map(|_| g.val()).collect()).collect();
+            it.exec(w, &Op::Extend { shape: shape.clone(), rows });
+            if it.worlds[o].is_some() {
+                let rows: Vec<Vec<u64>> = (0..n).map(|_| shape.iter().map(|_| g.val()).collect()).collect();
+                it.exec(o, &Op::Extend { shape, rows });
+                it.exec(w, &Op::Eq(o));
+            }
+            it.bump("drained");
+            continue;
         }
         // "ring churn" (C01/C02/C06/C10): rotate the allocator's free ring by alternating removals and
         // insertions (its contents then wrap around the end of the buffer), optionally copy the world
